@@ -2,7 +2,8 @@
 
     Only statements here; proofs live in Proofs/Ingest.v, the model in Model/Ingest.v. *)
 From Coq Require Import List Arith NArith Bool.
-From PV Require Import Model.Ingest Proofs.Ingest.
+From Coq Require Import Permutation.
+From PV Require Import Model.Ingest Proofs.Ingest Model.IngestConc Proofs.IngestConc.
 Import ListNotations.
 Local Open Scope N_scope.
 
@@ -36,3 +37,72 @@ Theorem C05_unrepaired_model_refuted :
   map r_seq (fold_left (fun s o => fst (deliver_asis_prune s o)) c05_witness []) = [7; 3].
 Proof. exact C05_asis_refuted. Qed.
 Print Assumptions C05_unrepaired_model_refuted.
+
+Local Close Scope N_scope.
+
+(** ** Overlapping ingest calls (Model/IngestConc.v)
+
+    [k = length ops] calls of [ingest_operation] run concurrently on one store, each cut at its
+    await points (validate; begin = acquire the single transaction permit; has_operation_tx;
+    get_latest_entry_tx; validate_prunable_backlink; insert; commit = release).  For EVERY
+    interleaving [sch] after which all calls have returned, the committed store (rows in commit
+    order) and every call's result are those of awaiting the calls one after the other in some
+    order [pi]. *)
+Theorem C05_concurrent_ingest_serialisable :
+  forall (ops : list op) (s0 : store) (sch : list nat),
+    let c := run_sched validate_prunable_backlink ops sch (init s0) in
+    all_done (List.length ops) c = true ->
+    exists pi, Permutation pi (seq 0 (List.length ops)) /\
+      c_store c = fst (seq_run validate_prunable_backlink ops s0 pi) /\
+      forall i r, In (i, r) (snd (seq_run validate_prunable_backlink ops s0 pi)) -> c_th c i = TDone r.
+Proof. exact (concurrent_ingest_serialisable validate_prunable_backlink). Qed.
+Print Assumptions C05_concurrent_ingest_serialisable.
+
+(** The same at every moment of every interleaving (also incomplete ones): the committed store
+    is the sequential result of the calls that have returned so far, in their commit order. *)
+Theorem C05_concurrent_prefix_serialisable :
+  forall (ops : list op) (s0 : store) (sch : list nat),
+    let c := run_sched validate_prunable_backlink ops sch (init s0) in
+    exists order, NoDup order /\ (forall i, In i order <-> is_done (c_th c i) = true) /\
+      (forall i, In i order -> i < List.length ops) /\
+      c_store c = fst (seq_run validate_prunable_backlink ops s0 order) /\
+      forall i r, In (i, r) (snd (seq_run validate_prunable_backlink ops s0 order)) -> c_th c i = TDone r.
+Proof. exact (sched_prefix_serialisable validate_prunable_backlink). Qed.
+Print Assumptions C05_concurrent_prefix_serialisable.
+
+(** C05 carries over to concurrent deliveries: after the prune point [o] at N went through the
+    pipeline, any batch of overlapping ingest calls (older prune points, duplicates, forged
+    copies, ...), under every interleaving and at every moment of it, leaves no entry of that
+    log below N in the committed store. *)
+Theorem C05_no_resurrection_concurrent :
+  forall (pre : list op) (o : op) (ops : list op) (sch : list nat),
+    wf_history (pre ++ [o]) = true ->
+    o_prune o = true -> res_ok (snd (deliver (run pre) o)) = true ->
+    forall r, In r (c_store (run_sched validate_prunable_backlink ops sch (init (run (pre ++ [o]))))) ->
+      in_log (o_author o) (o_log o) r = true -> (o_seq o <= r_seq r)%N.
+Proof. exact no_resurrection_concurrent. Qed.
+Print Assumptions C05_no_resurrection_concurrent.
+
+(** Inside a batch: rows are committed in strictly increasing sequence-number order per log
+    ([incr]: store in insertion order), under every interleaving -- so a call that commits after a
+    prune point at N was committed (by an overlapping call) never stores an entry at or below N. *)
+Theorem C05_concurrent_commit_order_increasing :
+  forall (s0 : store) (ops : list op) (sch : list nat),
+    incr s0 -> incr (c_store (run_sched validate_prunable_backlink ops sch (init s0))).
+Proof. exact concurrent_commit_order_increasing. Qed.
+Print Assumptions C05_concurrent_commit_order_increasing.
+
+(** Regression witness about a VARIANT of the code (tip read with the non-transactional
+    [get_latest_entry] before [begin()]; not the code as it is): prune points 5 and 3 of one log
+    ingested concurrently, both calls read the empty tip, 5 commits, 3 is validated against the
+    stale tip and commits -- store [5; 3] in commit order, which no sequential order produces. *)
+Theorem C05_concurrent_stale_tip_refuted :
+  wf_history st_ops = true /\
+  let c := vrun_sched validate_prunable_backlink st_ops st_sched (vinit []) in
+  v_all_done 2 c = true /\ map r_seq (v_store c) = [5; 3]%N /\
+  v_th c 0%nat = VDone Inserted /\ v_th c 1%nat = VDone Inserted /\
+  incrb (v_store c) = false /\
+  (forall pi, In pi [[0; 1]; [1; 0]]%nat ->
+     map r_seq (fst (seq_run validate_prunable_backlink st_ops [] pi)) <> [5; 3]%N).
+Proof. exact stale_tip_refuted. Qed.
+Print Assumptions C05_concurrent_stale_tip_refuted.
